@@ -224,11 +224,7 @@ func c16R3(r *Run, rep *core.Report) {
 		for _, w := range []string{"LoadOrStore", "LoadOrCompute"} {
 			wf := mm.Methods[w]
 			ok := false
-			core.Instrs(wf, func(in ssa.Instruction) {
-				c, isCall := in.(ssa.CallInstruction)
-				if !isCall || core.Callee(c) != f {
-					return
-				}
+			if c, _ := coreCallOf(mm, wf, 0); c != nil {
 				sp := core.Spec{}
 				for i, a := range c.Common().Args {
 					if k, isC := a.(*ssa.Const); isC && k.Value != nil && i < len(f.Params) {
@@ -240,7 +236,7 @@ func c16R3(r *Run, rep *core.Report) {
 						ok = true
 					}
 				})
-			})
+			}
 			rep.Check(ok, "C16.R3", fn(wf)+" selects the fast-path mode", r.P.Pos(wf.Pos()), "calls the core in a mode that tries the lock-free lookup", "get-or-create wrapper calls the compute core in a mode without the lock-free lookup")
 		}
 	}
